@@ -64,6 +64,22 @@ class Case:
         except Exception as e:     # noqa
             return ('exc', e)
 
+    def impl_stream(self, text):
+        """the same document read as a one-document STREAM (yaml.load_all with the function's loader class, which
+        goes through Loader.get_node instead of get_single_node); same result shape as impl()"""
+        del LOG[:]
+        try:
+            docs_ = list(yaml.load_all(text, Loader=self.load.loader))
+            if len(docs_) != 1:
+                return ('exc', ValueError('%d documents' % len(docs_)))
+            return ('ok', docs_[0])
+        except yatiml.RecognitionError as e:
+            return ('rej', str(e))
+        except yaml.YAMLError as e:
+            return ('yamlerr', type(e).__name__, e)
+        except Exception as e:     # noqa
+            return ('exc', e)
+
     def reference(self, tree):
         """tree: composed view (full tags).  ('ok', v) | ('rej', why) | ('ctorfail', why) | ('referr', e)"""
         try:
